@@ -36,9 +36,19 @@ BUDGET = {
 # sample with distinct cells and distinct per-channel metadata
 # ----------------------------------------------------------------------------------------------
 
+def chan_names(D):
+    """Duplicate-free names, some of which differ only in letter case ('ch0', 'CH0', 'ch2', 'CH2', ...)."""
+    return [('ch%d' % (j - 1)).upper() if j % 2 else 'ch%d' % j for j in range(D)]
+
+
+def col_from_name(name):
+    j = int(name[2:])
+    return j + 1 if name.isupper() else j
+
+
 def make(N, D, name='c04.fcs'):
     import FlowCal.io
-    names = ['ch%d' % j for j in range(D)]
+    names = chan_names(D)
     mat = [[100 * i + j + 1 for j in range(D)] for i in range(N)]
     spec = dict(version='FCS3.0', datatype='I', byteord='4,3,2,1', widths=[16] * D, ranges=[2048 * (j + 1) for j in range(D)],
                 names=names, events=mat, pne=['%d,1' % j if j else '0,0' for j in range(D)],
@@ -76,12 +86,12 @@ def aligned(got, meta_all):
         if a.shape[1] != k:
             return '%d columns but %d channel records' % (a.shape[1], k)
         for j in range(k):
-            if any(col_of(v) != int(gm[j]['name'][2:]) for v in a[:, j]):
+            if any(col_of(v) != col_from_name(gm[j]['name']) for v in a[:, j]):
                 return 'column %d holds values of another channel than %r' % (j, gm[j]['name'])
         return None
     if a.ndim == 1:
-        as_row = a.shape[0] == k and all(col_of(v) == int(gm[j]['name'][2:]) for j, v in enumerate(a))
-        as_col = k == 1 and all(col_of(v) == int(gm[0]['name'][2:]) for v in a)
+        as_row = a.shape[0] == k and all(col_of(v) == col_from_name(gm[j]['name']) for j, v in enumerate(a))
+        as_col = k == 1 and all(col_of(v) == col_from_name(gm[0]['name']) for v in a)
         if as_row or as_col or (a.shape[0] == 0 and k <= 1):
             return None
         return '1-D result of %d values with channels %r is neither a row nor a column of them' % (a.shape[0], [m['name'] for m in gm])
@@ -182,6 +192,10 @@ def evaluate(d, base, meta, rk, ck):
         if other:
             return 'raise', None          # refusing a form outside the listed grammar is allowed
         return 'raise', ('values', '%s: refused with %r although plain indexing works' % (desc, got))
+    # aliasing as in NumPy: where plain indexing returns a copy, the sample's result is no view of its parent either
+    if isinstance(exp, np.ndarray) and isinstance(got, np.ndarray) and exp.size and not np.shares_memory(exp, base) \
+            and np.shares_memory(got, d):
+        return 'value', ('aliasing', '%s: plain indexing returns a copy but the sample returned a view of its parent' % desc)
     if np.shape(got) != np.shape(exp) or not np.array_equal(np.asarray(got), exp):
         return 'value', ('values', '%s: values %r, plain indexing gives %r' % (desc, np.asarray(got).tolist(), np.asarray(exp).tolist()))
     if np.ndim(exp) == 0:
@@ -227,7 +241,7 @@ def row_keys(N):
 
 def col_keys(D, names):
     out = [('absent',)] + [('int', i) for i in range(-D - 1, D + 1)]
-    out += [('name', n) for n in names] + [('name', 'zz')]
+    out += [('name', n) for n in names] + [('name', 'zz'), ('name', 'Ch0')]
     vals = [None] + list(range(-D - 1, D + 2))
     for a in vals:
         for b in vals:
@@ -335,7 +349,7 @@ def _colkey(draw, D, names, keep2d=False):
     if kind == 'name':
         return ['name', draw(st.sampled_from(names))]
     if kind == 'badname':
-        return draw(st.sampled_from([['name', 'zz'], ['list', [names[0], 'zz']], ['list', [0, D]], ['list', [-D - 1]]]))
+        return draw(st.sampled_from([['name', 'zz'], ['name', 'Ch0'], ['list', [names[0], 'cH0']], ['list', [names[0], 'zz']], ['list', [0, D]], ['list', [-D - 1]]]))
     if kind == 'slice':
         v = st.one_of(st.none(), st.integers(-D - 2, D + 2))
         return ['slice', [draw(v), draw(v), draw(st.sampled_from([None, 1, -1, 2]))]]
@@ -356,7 +370,7 @@ def _colkey(draw, D, names, keep2d=False):
 def _chain_case(draw):
     N = draw(st.integers(1, 12))
     D = draw(st.integers(1, 8))
-    names = ['ch%d' % j for j in range(D)]
+    names = chan_names(D)
     L = draw(st.sampled_from([1, 2, 2, 3, 3]))
     chain = []
     n, dd, nm = N, D, list(names)
